@@ -10,7 +10,7 @@ import os
 
 from vp import core, vlog
 
-FORMS = ["absolute", "relative", "trailing_slash", "nested_missing", "symlinked_parent", "symlinked_parent_other_depth"]
+FORMS = ["absolute", "relative", "trailing_slash", "nested_missing", "symlinked_parent", "symlinked_parent_other_depth", "other_filesystem"]
 CACHE = [None, False, True, 0, -1, 3]
 
 
@@ -58,6 +58,14 @@ def dir_for(form, base, name):
         if not os.path.lexists(link):
             os.symlink(real, link)
         return os.path.join(link, name), os.path.join(real, name)
+    if form == "other_filesystem":
+        # a directory on another file system than the system's temporary directory (a data disk, a tmpfs): a file
+        # cannot be renamed into it from elsewhere
+        o = core.other_filesystem_dir(base)
+        if o is None:
+            p = os.path.join(base, name + "_abs2")
+            return p, p
+        return os.path.join(o, name), os.path.join(o, name)
     raise ValueError(form)
 
 
@@ -267,7 +275,7 @@ def views_job(arg):
 def run(tier, seed):
     rep = core.Report("C16")
     rep.rule = (
-        "internal_dir x data_dir forms %r (all 36 combinations) x cache_objects %r; per configuration: process A keeps two nodes, loads, re-keeps, chdirs, loads and re-keeps again; "
+        "internal_dir x data_dir forms %r (all combinations) x cache_objects %r; per configuration: process A keeps two nodes, loads, re-keeps, chdirs, loads and re-keeps again; "
         "process B (other cwd, absolute real paths) and process C (same cwd and spelling) load and re-keep with an empty execution log; two-view scripts (one internal dir, two data dirs) in one process and "
         "with one process per view switch. distinct_nontrivial = distinct configurations whose processes were all observed." % (FORMS, CACHE)
     )
